@@ -484,6 +484,8 @@ def type_and_value(draw, cfg=None):
         return nested_choice_set_case(d)
     if c['tags'] and c['implicit'] and not c.get('root_kinds') and c['max_depth'] >= 2 and d.pct(c.get('directed_pct', 2)):
         return shared_base_case(d)
+    if c['defaults'] and c['tags'] and c['implicit'] and not c.get('root_kinds') and c['max_depth'] >= 2 and d.pct(c.get('directed_pct', 2)):
+        return empties_case(d)
     T = draw_type(d)
     v = draw_value(d, T)
     return T, v
@@ -632,4 +634,34 @@ def shared_base_case(d):
     v = {'p': draw_value(d, base), 'q': draw_value(d, base)}
     if d.pct(70):
         v['r'] = draw_value(d, base)
+    return T, v
+
+
+def empties_case(d):
+    """A record in which an OPTIONAL member (present or not) is followed by list-typed members - one DEFAULT, one mandatory - whose
+    elements are EMPTY constructed values; value and default differ in the number of empty elements only. (Options that an
+    encoder sets for one member and that are still in force for the next show here.) -> (T, v)"""
+    ek = d.pick(['SET', 'SEQUENCE', 'SEQUENCEOF', 'SETOF', 'OPTREC'])
+    if ek in ('SET', 'SEQUENCE'):
+        E, ev = ir.mk(ek, comps=[]), {}
+    elif ek == 'OPTREC':
+        E, ev = ir.mk('SEQUENCE', comps=[ir.comp('u', ir.mk('INTEGER'), 'opt'), ir.comp('w', ir.mk('BOOLEAN', tags=[['I', 'C', 0]]), 'opt')]), {}
+    else:
+        E, ev = ir.mk(ek, of=ir.mk('INTEGER')), []
+    lk = d.pick(['SEQUENCEOF', 'SETOF'])
+    tg = lambda n: [[d.pick(['E', 'I']), 'C', n]] if d.pct(60) else []
+    nd, nv, nm = d.int(0, 3), d.int(0, 3), d.int(0, 2)
+    first = d.pick([ir.mk('INTEGER'), ir.mk('UTF8String'), ir.mk('SEQUENCE', comps=[]), ir.mk('SEQUENCEOF', of=ir.mk('NULL'))])
+    comps = [ir.comp('o', first, 'opt'),
+             ir.comp('l', ir.mk(lk, tags=tg(12) or [['I', 'C', 12]], of=E), 'def', [ev] * nd),
+             ir.comp('m', ir.mk(lk, tags=[['I', 'C', 13]], of=E)),
+             ir.comp('z', ir.mk('INTEGER', tags=[['I', 'C', 14]]), 'opt')]
+    if d.pct(30):
+        comps[1], comps[2] = comps[2], comps[1]
+    T = ir.mk(d.pick(['SEQUENCE', 'SEQUENCE', 'SET']), comps=comps)
+    v = {'l': [ev] * nv, 'm': [ev] * nm}
+    if d.pct(60):
+        v['o'] = draw_value(d, first)
+    if d.pct(50):
+        v['z'] = d.int(-2, 200)
     return T, v
